@@ -977,7 +977,7 @@ def msgbuf_correspondence(ctx, drv, workdir):
     root = os.path.join(workdir, "mbmods")
     os.makedirs(root, exist_ok=True)
     with open(os.path.join(root, "m" * 255), "w") as f:
-        f.write("module x { func f() -> int { zz } }\n")
+        f.write("module x { func f( -> int { zz } }\n")     # a SYNTAX error: reported under the name given to `use`
     for L in [300, 900, 1000, 1005, 1010, 1012, 1013, 1014, 1020, 1023, 1024, 1025, 1100, 3000]:
         cases.append(Case("mb.p.%d" % L, "msgbuf", b"use " + b"m" * L + b"\nfunc main() -> int { 0 }\n", "str", root))
     obs = run_cases(drv, cases, workdir, tag="mb")
@@ -986,11 +986,15 @@ def msgbuf_correspondence(ctx, drv, workdir):
         o = obs.get(c.id)
         if o is None:
             continue
-        first = o.diag.split(b"\n")[0]
-        m = re.match(rb"^(.*?:\d+: error: )(.*)$", first, re.S)
-        if not m:
+        # the diagnostic with the longest prefix is the one that stresses the arithmetic
+        best = None
+        for ln in o.diag.split(b"\n")[:40]:
+            m = re.match(rb"^(.*?:\d+: error: )(.*)$", ln, re.S)
+            if m and (best is None or len(m.group(1)) > len(best.group(1))):
+                best = m
+        if best is None:
             continue
-        p, b = len(m.group(1)), len(m.group(2))
+        p, b = len(best.group(1)), len(best.group(2))
         over = b"AddressSanitizer: stack-buffer-overflow" in o.diag and b"in print_msg" in o.diag
         other = (o.ret is None) and not over
         info[c.id] = (p, b, over, other, c)
